@@ -1,5 +1,6 @@
 import ParryModel.C14.Theorems
 #print axioms C14.tuc3_true_sound
+#print axioms C14.tuc3_motion_bound
 #print axioms C14.tuc2_true_sound
 #print axioms C14.tuc3_frame
 #print axioms C14.deepest_spec
